@@ -86,6 +86,9 @@ def cases(tier, seed):
                 "steps": [configs.loguniform(rng, 0.004, 0.02) if small else configs.loguniform(rng, 0.02, 0.3) for _ in range(nsteps)],
                 "field": field.to_json(), "inits": [[str(x) for x in b] for b in inits], "t0": str(t0),
                 "tol": 10 ** rng.uniform(-6, -3), "relin": rng.random() < 0.5, "cost": 6.0,
+                # observation damping is an argument of every solve routine and enters each factorisation's linearisation
+                # separately (seed C14-s3: the isotropic first-order linearisation dropped it); non-zero in every third case
+                "damp": [0.0, 0.0, 10 ** rng.uniform(-3, -1)][(k // len(kinds)) % 3],
             }
         )
     return out
@@ -100,7 +103,7 @@ def _ulp_perturbed(case, problem, seed):
     steps = [float(h) * (1.0 + float(r.choice([-1.0, 1.0])) * 2.0**-52) for h in case["steps"]]
     # the base output scale moved by one ulp re-rounds every covariance factor along the way (with zeroth-order
     # linearisation and no calibration the covariances do not depend on the initial values at all)
-    return {**case, "steps": steps, "base_p": 1.0 + float(r.choice([-1.0, 1.0])) * 2.0**-52}, {**problem, "inits": inits}
+    return {**case, "steps": steps, "base_p": 1.0 + float(r.choice([-1.0, 1.0])) * 2.0**-52, "tc_ulp_seed": int(seed)}, {**problem, "inits": inits}
 
 
 def _solve(case, fact, problem, *, ts, strategy=None):
@@ -110,18 +113,18 @@ def _solve(case, fact, problem, *, ts, strategy=None):
 
     strategy = strategy or case["strategy"]
     cfg = configs.build(fact=fact, strategy=strategy, cal=case["cal"], ts=ts, nu=case["nu"], problem=problem, relinearize=case["relin"],
-                        base_scale=case.get("base_p"))
+                        base_scale=case.get("base_p"), tc_ulp_seed=case.get("tc_ulp_seed"))
     t0 = cfg["prob"]["t0"]
     grid = np.concatenate([[t0], t0 + np.cumsum(case["steps"])])
     if case["kind"] == "adaptive":
         sol = jax.jit(ivpsolve.solve_adaptive_save_at(solver=cfg["solver"], error=cfg["error"], while_loop=configs.bounded_while()))(
-            cfg["prior"], jnp.asarray(grid), atol=case["tol"], rtol=case["tol"], dt0=0.1)
+            cfg["prior"], jnp.asarray(grid), atol=case["tol"], rtol=case["tol"], dt0=0.1, damp=case.get("damp", 0.0))
     else:
         import warnings
 
         with warnings.catch_warnings():
             warnings.simplefilter("ignore")  # fixed-point on a fixed grid warns; the comparison is still meaningful
-            sol = jax.jit(ivpsolve.solve_fixed_grid(solver=cfg["solver"]))(cfg["prior"], grid=jnp.asarray(grid))
+            sol = jax.jit(ivpsolve.solve_fixed_grid(solver=cfg["solver"]))(cfg["prior"], grid=jnp.asarray(grid), damp=case.get("damp", 0.0))
     T = len(grid)
     if case["kind"] == "adaptive" and not configs.adaptive_reached_end(sol, grid[-1]):
         raise util.Inconclusive("adaptive run hit its logical step budget")
